@@ -197,9 +197,16 @@ def run(check, repo: Repo) -> None:
                  f"written {sorted(written)} read {sorted(read)}", mod.line(load_fn),
                  fail_detail=f"save writes {sorted(written)}, load reads {sorted(read)}")
     # values written derive from the normalised skip lists
+    # the normalised lists are the values handed to _recursive_save in the skip_names / skip_types positions
+    rs_calls = [c for c in calls_in(save_fn) if (call_name(c) or "").endswith("._recursive_save")]
+    role_names = {"skip_names": set(), "skip_types": set()}
+    for c in rs_calls:
+        if len(c.args) >= 4:
+            role_names["skip_names"].add(unparse(c.args[2]))
+            role_names["skip_types"].add(unparse(c.args[3]))
     for key, val in written.items():
         src = "skip_names" if "names" in key else "skip_types"
-        check.decide(src in names_in(val), "C14-R4", f"save: '{key}' is computed from {src}",
+        check.decide(bool(role_names[src] & names_in(val)), "C14-R4", f"save: '{key}' is computed from {src}",
                      unparse(val)[:100], mod.line(val),
                      fail_detail=f"'{key}' is written as `{unparse(val)}`, not from {src}")
     # load: the skip_names handed to _recursive_load derive from BOTH the user's skip and the file's
